@@ -11,7 +11,23 @@ address incl. reuse of the address, symbol addresses and the written python.fake
 utils/symbol.c, libmcount's records, exit hooks that arrive with idx == 0 (also under
 AddressSanitizer).  Pre-fix behaviour is recognised through the model flags guard / pin and
 reported as F-C19-UNPAIRED-OOB / F-C19-FIRSTFRAME-ALIAS.
-Thorough tier adds H5: generated Python programs and the two finding scripts under the snapshot's
+(1b) H4, names: histories of code objects (made, called, dropped; the allocator hands the addresses out
+again) through the real convert_function_addr() against `PyHook.convertCode`
+(c19_name_is_current_code_object).  Every H4 case runs in a forked child of the initialised
+interpreter: a fresh process whatever static state the file has.
+(3) H5, both tiers: generated Python PROJECTS (script + sibling modules + a package; functions made
+with exec/compile/eval and dropped, class bodies, namedtuple/dataclass code generation, closures,
+generators, exceptions, sys.exit / os._exit / uncaught exception; harness/c19_projgen.py) started in every
+way a user can start a script (relative, ./, absolute, through a symbolic link to the directory —
+relative and absolute —, through a symbolic link to the script, found in PATH) under the snapshot's
+`uftrace record` in the three libcall modes with -F/-N selections.  Ground truth: the program's own
+event log from an untraced run of the same command line under sys.setprofile
+(harness/c19_projlog.py); monitor: the set and nesting of the module-qualified calls that
+`uftrace replay` shows is the documented selection of the calls the program made (what the import
+system does below an `import` is compared only for the program code it runs), stdout and exit
+status are those of the native run.  The launcher as found (python/uftrace.py + init_uftrace) is
+recognised through `launcher_prefix_dirs` / Model/PyHook §7 and reported as F-C19-SCRIPTDIR.
+Thorough tier adds the single-file programs and the two finding scripts under the snapshot's
 `uftrace record`."""
 import fnmatch
 import glob
@@ -243,6 +259,9 @@ def monitor(case_line, impl_line):
     _, mode, ptype, filt, libs = head.split()
     evs = evs.split()
     libs = [] if libs == "-" else libs.split(",")
+    if impl_line.strip().startswith("CRASH"):
+        return ("c19_balanced_output", "uftrace_trace_python() did not survive this event stream in a fresh process: " +
+                impl_line.strip())
     parsed = parse_impl(impl_line)
     if parsed is None:
         return ("correspondence", "unparsable implementation output")
@@ -847,14 +866,35 @@ def build_hook_harness(ctx, asan=False):
     return exe, ("flags from make -n" if from_make else "fallback flags")
 
 
-def run_harness(exe, lines, timeout=1500):
-    r = subprocess.run([exe], input="\n".join(lines) + "\n", stdout=subprocess.PIPE,
-                       stderr=subprocess.PIPE, text=True, timeout=timeout)
-    out = r.stdout.split("\n")
+def run_harness(exe, lines, timeout=1500, workers=8):
+    """the harness forks one process per case; the cases are spread over `workers` harness processes"""
+    from concurrent.futures import ThreadPoolExecutor
+
+    class R:
+        returncode = 0
+        stderr = ""
+
+    def part(chunk):
+        r = subprocess.run([exe], input="\n".join(chunk) + "\n", stdout=subprocess.PIPE,
+                           stderr=subprocess.PIPE, text=True, timeout=timeout)
+        return r
+
+    n = max(1, min(workers, len(lines) // 50 or 1))
+    size = (len(lines) + n - 1) // n
+    chunks = [lines[i:i + size] for i in range(0, len(lines), size)]
+    with ThreadPoolExecutor(n) as ex:
+        rs = list(ex.map(part, chunks))
+    out = []
+    res = R()
+    for r in rs:
+        out += r.stdout.split("\n")
+        if r.returncode != 0 and res.returncode == 0:
+            res.returncode = r.returncode
+        res.stderr += r.stderr
     models = [l[6:] for l in out if l.startswith("MODEL ")]
     impls = [l[5:] for l in out if l.startswith("IMPL ")]
     infos = [l for l in out if l.startswith("INFO ")]
-    return r, models, impls, infos
+    return res, models, impls, infos
 
 
 def case_line(mode, ptype, filt, evs, fixed="1"):
@@ -862,7 +902,74 @@ def case_line(mode, ptype, filt, evs, fixed="1"):
 
 
 def with_fixed(line, fixed):
+    if line.startswith("code "):
+        return line
     return fixed + line[1:]
+
+
+def gen_code_case(rng):
+    """a history of code objects: frames (each with a code object of its own) are made, get `call`
+    events and are dropped; the allocator hands the blocks out again (LIFO), so later code objects
+    live where dead ones lived"""
+    names = ["f%d" % i for i in range(6)] + ["rules.rule_%d" % i for i in range(8)] + ["m.g", "m.K", "m.K.get", "lam"]
+    libs = sorted(rng.sample(names, rng.randint(0, 4)))
+    slots = {}
+    toks = []
+    fresh = list(names)
+    rng.shuffle(fresh)
+    style = rng.random()
+    for _ in range(rng.randint(4, 40)):
+        r = rng.random()
+        free = [k for k in range(8) if k not in slots]
+        if style < 0.4:
+            # the rule-engine shape: make, call, drop - one at a time
+            k = 0
+            nm = fresh.pop() if fresh and rng.random() < 0.8 else rng.choice(names)
+            toks += ["n:%d=%s" % (k, nm)] + ["e:%d" % k] * rng.randint(1, 2) + ["d:%d" % k]
+            continue
+        if slots and r < 0.45:
+            toks.append("e:%d" % rng.choice(sorted(slots)))
+        elif free and (r < 0.75 or not slots):
+            k = rng.choice(free)
+            slots[k] = fresh.pop() if fresh and rng.random() < 0.6 else rng.choice(names)
+            toks.append("n:%d=%s" % (k, slots[k]))
+            if rng.random() < 0.7:
+                toks.append("e:%d" % k)
+        elif slots:
+            k = rng.choice(sorted(slots))
+            del slots[k]
+            toks.append("d:%d" % k)
+    return "code %s | %s" % (",".join(libs) or "-", " ".join(toks))
+
+
+def code_monitor(case, impl_line):
+    """names: the symbol of every event is the one of the function whose code object the frame holds at
+    that event; one address per name.  -> None or (theorem, what)"""
+    if impl_line.strip().startswith("CRASH"):
+        return ("c19_name_is_current_code_object", "convert_function_addr() did not survive this history of code "
+                "objects: " + impl_line.strip())
+    slots = {}
+    want = []
+    for t in case.split("|", 1)[1].split():
+        k = int(t[2:].split("=")[0])
+        if t[0] == "n":
+            slots[k] = t.split("=", 1)[1]
+        elif t[0] == "d":
+            slots.pop(k, None)
+        else:
+            want.append(slots.get(k))
+    got = impl_line.split()
+    if len(got) != len(want):
+        return ("correspondence", "unparsable implementation output")
+    addr_of, name_of = {}, {}
+    for i, (g, w) in enumerate(zip(got, want)):
+        name, _, addr = g.rpartition(":")
+        if name != w:
+            return ("c19_name_is_current_code_object", "event %d is a call of %s, recorded under the symbol of %s "
+                    "(%d code objects made and dropped before it)" % (i, w, name or "nothing", i))
+        if addr_of.setdefault(name, addr) != addr or name_of.setdefault(addr, name) != name:
+            return ("c19_name_is_current_code_object", "name %s / address %s: not one address per name" % (name, addr))
+    return None
 
 
 def generate(ctx):
@@ -873,8 +980,8 @@ def generate(ctx):
     cdir = os.path.join(C.VERIF, "corpus", "C19")
     if os.path.isdir(cdir):
         for fn in sorted(os.listdir(cdir)):
-            if fn.startswith("hook"):
-                continue                     # end-to-end corpus: gen_hook_cases
+            if fn.startswith("hook") or os.path.isdir(os.path.join(cdir, fn)):
+                continue                     # end-to-end corpus: gen_hook_cases; projects: run_projects
             for l in open(os.path.join(cdir, fn)):
                 l = l.strip()
                 if l and not l.startswith("#"):
@@ -916,6 +1023,9 @@ def generate(ctx):
             evs = evs[:rng.randint(1, len(evs))]
             cls = "random-truncated"
         cases.append((case_line(rng.choice(MODES), ptype, filt, evs), cls))
+    # histories of code objects (made, called, dropped; addresses handed out again)
+    for _ in range(400 if ctx.tier == "quick" else 6000):
+        cases.append((gen_code_case(rng), "code-objects"))
     # arbitrary event sequences (not nested): model validation only
     nfree = 600 if ctx.tier == "quick" else 10000
     for _ in range(nfree):
@@ -1134,12 +1244,18 @@ def run(ctx):
     ok, problems = C.prove(ctx, "C19")
     if not ok:
         C.violation(ctx, "proof", {"kind": "proof-obligation-broken", "problems": problems}, True)
-        return C.finish(ctx)
+        # section 7: go on and look for a concrete failing input (the driver may still build)
+        okd, _ = C.lake_build(["uv_C19"])
+        if not okd:
+            ctx.snapshot()
+            ctx.coverage.update({"evaluations": 0, "distinct_nontrivial": 0, "projects": run_projects(ctx)})
+            return C.finish(ctx)
 
     ctx.snapshot()
     exe, log = build_harness(ctx)
     if exe is None:
         C.violation(ctx, "build", {"kind": "harness-build-failed", "log": log[-3000:]}, True)
+        ctx.coverage.update({"evaluations": 0, "distinct_nontrivial": 0, "projects": run_projects(ctx)})
         return C.finish(ctx)
 
     cases, nexh = generate(ctx)
@@ -1149,6 +1265,9 @@ def run(ctx):
         C.violation(ctx, "harness", {"kind": "harness-failed", "rc": r.returncode, "infos": infos[:5],
                                      "stderr": r.stderr[-2000:], "cases": len(cases),
                                      "got": [len(models), len(impls)]}, True)
+        hook = run_hook_part(ctx, "1")
+        ctx.coverage.update({"evaluations": 0, "distinct_nontrivial": 0, "end_to_end": hook,
+                             "projects": run_projects(ctx)})
         return C.finish(ctx)
 
     m_fixed = C.run_model("C19", [with_fixed(m, "1") for m in models])
@@ -1157,6 +1276,8 @@ def run(ctx):
     # the monitor's reading of the manual against the Lean specification
     spec_in, spec_idx, spec_want = [], [], []
     for i, l in enumerate(lines):
+        if l.startswith("code "):
+            continue
         head, evs = l.split("|", 1)
         forest = tree_of(evs.split())
         if forest is None:
@@ -1185,8 +1306,14 @@ def run(ctx):
     neq_fixed = [i for i in range(n) if C.norm(impls[i]) != C.norm(m_fixed[i])]
     neq_pre = [i for i in range(n) if C.norm(impls[i]) != C.norm(m_pre[i])]
     mon = {}
+    code_reuse = 0
     for i in range(n):
-        bad = monitor(lines[i], impls[i])
+        if lines[i].startswith("code "):
+            bad = code_monitor(lines[i], impls[i])
+            al = [t.split("=")[0] for t in models[i].split() if t.startswith("a:")]
+            code_reuse += len(al) - len(set(al))
+        else:
+            bad = monitor(lines[i], impls[i])
         if bad:
             mon[i] = bad
     matches_prefix_everywhere = bool(neq_fixed) and not neq_pre
@@ -1234,6 +1361,7 @@ def run(ctx):
 
     hook = run_hook_part(ctx, "0" if matches_prefix_everywhere else "1")
 
+    projects = run_projects(ctx)
     e2e = {}
     if ctx.tier == "thorough":
         e2e = run_e2e(ctx)
@@ -1257,7 +1385,7 @@ def run(ctx):
         samples.append({"model_input": lines[i][:300], "impl": C.norm(impls[i])[:200],
                         "model": C.norm(m_fixed[i])[:200]})
     ctx.coverage.update({
-        "evaluations": n + (hook.get("cases", 0) if isinstance(hook, dict) else 0),
+        "evaluations": n + (hook.get("cases", 0) if isinstance(hook, dict) else 0) + projects.get("record_runs", 0),
         "distinct_nontrivial": len(nontrivial),
         "rule": "corpus; then every properly nested profile-event stream of <= %d calls (%d events) over the "
                 "alphabet {a, g (main), lib.f (python library), os.getpid (C)} x 3 libcall modes x 12 "
@@ -1269,12 +1397,16 @@ def run(ctx):
                 "what still runs after them (bit 14 of the word below rstack set / clear / as found), streams in which "
                 "the first frame object is released and its block handed out again, 5-45 symbol names in sorted / "
                 "reversed / random order, arbitrary sequences; --max-stack default / 65535 / 2-5; the lone-exit cases "
-                "again under AddressSanitizer" % (3 if ctx.tier == "quick" else 4,
-                                                                       6 if ctx.tier == "quick" else 8),
+                "again under AddressSanitizer. code-objects: 4-40 make/call/drop steps over 8 frame slots and 18 "
+                "function names (40%% in the make-call-drop-one-at-a-time shape). projects: corpus/C19/projects, then "
+                "%d generated projects x 9 start modes (x2 in the thorough tier), libcall mode cycled, -F/-N from a pool of "
+                "21 selections" % (3 if ctx.tier == "quick" else 4, 6 if ctx.tier == "quick" else 8,
+                                   12 if ctx.tier == "quick" else 40),
         "by_class": classes,
         "exhaustive_cases": nexh,
         "exhaustive": False,
         "cases_with_suppressed_calls": suppressed,
+        "code_objects_allocated_at_an_address_used_before": code_reuse,
         "model_code_disagreements_vs_fixed_model": len(neq_fixed),
         "model_code_disagreements_vs_prefix_model_F2": len(neq_pre),
         "disagreeing_with_both_models": len(neither),
@@ -1283,6 +1415,7 @@ def run(ctx):
         "monitor_vs_lean_spec_checked": len(spec_in),
         "monitor_vs_lean_spec_mismatch": spec_mismatch,
         "e2e": e2e,
+        "projects": projects,
         "end_to_end": hook,
         "samples": samples,
     })
@@ -1311,6 +1444,12 @@ def run(ctx):
         "the case is compared only up to that point",
         "one thread, one process in the harness; the fork/multiprocessing part of the symbol-table model "
         "(World) is covered by theorems only",
+        "projects (H5): a function is program code when it belongs to __main__ or its file lies under the directory "
+        "the script really is in (what the interpreter puts in sys.path[0]), library code otherwise; the calls the "
+        "import system makes below an import statement are compared only for the program code they run (they depend "
+        "on path caches and directory sizes); PYTHONHASHSEED=0, PYTHONDONTWRITEBYTECODE=1 in all runs; "
+        "`WARN: unpaired cygprof exit` on stderr after sys.exit()/an uncaught exception is counted, not judged "
+        "(c19_lone_exit_ignored); stderr is not compared",
     ]
     return C.finish(ctx)
 
@@ -1553,10 +1692,429 @@ def run_e2e(ctx):
             "after_script_end": after}
 
 
+# ---------------------------------------------------------------- H5 (both tiers): generated PROJECTS
+# A project = script + sibling modules + a package (harness/c19_projgen.py), started in every way a user
+# can start it; ground truth = the program's own event log from an UNTRACED run under sys.setprofile
+# (harness/c19_projlog.py, names computed independently of trace-python.c).  Monitor = C19's statement:
+# the set and nesting of the (module-qualified) calls uftrace replay shows is the documented selection
+# of the calls the program made, names included; stdout and exit status are those of the native run.
+F_SCRIPTDIR = "F-C19-SCRIPTDIR"
+START_MODES = ["rel", "dot", "abs", "abs-symdir", "rel-symdir", "symscript-rel", "symscript-abs",
+               "path", "path-symdir"]
+LIBCALL_OPTS = {"SINGLE": [], "NONE": ["--no-libcall"], "NESTED": ["--nest-libcall"]}
+
+
+def project_materialize(W, proj):
+    """W/app = the project, W/link -> app, W/bin/tool -> ../app/main.py, W/deep/l2 -> ../link"""
+    app = os.path.join(W, "app")
+    for rel, text in proj["files"].items():
+        p = os.path.join(app, rel)
+        os.makedirs(os.path.dirname(p), exist_ok=True)
+        with open(p, "w") as f:
+            f.write(text)
+    os.chmod(os.path.join(app, "main.py"), 0o755)
+    os.symlink("app", os.path.join(W, "link"))
+    os.makedirs(os.path.join(W, "bin"))
+    os.symlink("../app/main.py", os.path.join(W, "bin", "tool"))
+    os.makedirs(os.path.join(W, "deep"))
+    os.symlink("../link", os.path.join(W, "deep", "l2"))
+
+
+def start_cmd(W, mode):
+    """-> (argv0 as the user types it, cwd, directory put in front of PATH or None)"""
+    return {
+        "rel": ("app/main.py", W, None),
+        "dot": ("./main.py", os.path.join(W, "app"), None),
+        "abs": (os.path.join(W, "app/main.py"), W, None),
+        "abs-symdir": (os.path.join(W, "deep/l2/main.py"), W, None),
+        "rel-symdir": ("link/main.py", W, None),
+        "symscript-rel": ("bin/tool", W, None),
+        "symscript-abs": (os.path.join(W, "bin/tool"), W, None),
+        "path": ("main.py", W, os.path.join(W, "app")),
+        "path-symdir": ("main.py", W, os.path.join(W, "link")),
+    }[mode]
+
+
+def launcher_prefix_dirs(argv0, cwd, pathdir):
+    """python/uftrace.py + init_uftrace() as found (before the repair proposed for F-C19-SCRIPTDIR):
+    -> (sys.path[0], main_dir).  The repaired launcher uses dirname(realpath(script)) for both."""
+    if pathdir is not None:
+        pathname = pathdir + "/" + argv0
+        return os.path.dirname(pathname), os.path.dirname(pathname)
+    pathname = argv0 if argv0[0] == "/" else cwd + "/" + argv0
+    main_dir = os.path.dirname(argv0) if argv0[0] == "/" else os.path.dirname(os.path.realpath(os.path.join(cwd, argv0)))
+    return os.path.dirname(pathname), main_dir
+
+
+def launcher_model_check(ctx, W):
+    """Model/PyHook §7 (`sysPath0`, `mainDir`, `isProgramFile`) against this file's reading of
+    python/uftrace.py + init_uftrace (`launcher_prefix_dirs`, which the project runs validate against
+    the real thing), for every start mode, as found and repaired.  -> number of disagreements"""
+    lines, want = [], []
+    real = os.path.join(W, "app")
+    for sm in START_MODES:
+        argv0, cwd, pathdir = start_cmd(W, sm)
+        arg = pathdir + "/" + argv0 if pathdir else argv0
+        isabs = arg[0] == "/"
+        absn = arg if isabs else cwd + "/" + arg
+        rp = os.path.realpath(absn)
+        for fixed in (0, 1):
+            if fixed:
+                sp0 = md = os.path.dirname(rp)
+            else:
+                sp0, md = launcher_prefix_dirs(argv0, cwd, pathdir)
+            files = [sp0 + "/helper.py", sp0 + "/pkg/core.py", real + "/generated_rules.py", "/usr/lib/python3/os.py"]
+            flags = ["1" if (f.startswith(md) and f[len(md):len(md) + 1] == "/") else "0" for f in files]
+            lines.append("launch %d %d %s %s %s=%s | %s" % (fixed, isabs, cwd, arg, absn, rp, " ".join(files)))
+            want.append("%s %s | %s" % (sp0, md, " ".join(flags)))
+    got = C.run_model("C19", lines)
+    bad = [(l, w, g) for l, w, g in zip(lines, want, got) if C.norm(w) != C.norm(g)]
+    for l, w, g in bad[:1]:
+        C.violation(ctx, "launcher-model", {"kind": "model-code-disagreement", "model_input": l, "model_output": g,
+                                            "launcher_as_read_from_uftrace_py": w,
+                                            "theorem": "c19_sibling_modules_are_program_code"}, True)
+    return len(lines), len(bad)
+
+
+def read_projlog(path):
+    """-> (events, {name: class M|D|L}, {name: co_filename})"""
+    evs, cls, files = [], {}, {}
+    try:
+        fh = open(path)
+    except OSError:
+        return evs, cls, files
+    for l in fh:
+        t = l.split()
+        if not t:
+            continue
+        evs.append(t[0])
+        if len(t) > 1:
+            cls.setdefault(t[0][2:], t[1])
+        if len(t) > 2:
+            files.setdefault(t[0][2:], t[2])
+    return evs, cls, files
+
+
+def info_exit_status(text):
+    m = re.search(r"exit status\s*:\s*(.*)", text)
+    if not m:
+        return None
+    s = m.group(1).strip()
+    m2 = re.match(r"exited with code: (\d+)", s)
+    return int(m2.group(1)) if m2 else s
+
+
+IMPORT_ROOTS = ("importlib._bootstrap._find_and_load", "importlib._bootstrap._handle_fromlist",
+                "importlib._bootstrap._gcd_import", "builtins.__import__")
+
+
+def strip_import_internals(ops, cls):
+    """What the import system calls on behalf of an `import` statement depends on the environment (the
+    path-importer cache, the number of entries of the directories on sys.path, how sys.path[0] is spelled),
+    not on the program: below an import root only program code (class M/D of the ground-truth log) and
+    what it calls is compared.  The import root itself stays."""
+    out = []
+    stack = []          # (kept?, context below this node: True = inside the import system)
+    for o in ops:
+        if o is None:
+            if stack:
+                kept, _ = stack.pop()
+                if kept:
+                    out.append(None)
+            else:
+                out.append(None)
+            continue
+        inside = stack[-1][1] if stack else False
+        prog = cls.get(o) in ("M", "D")
+        if inside and not prog:
+            stack.append((False, True))
+            continue
+        out.append(o)
+        stack.append((True, (o in IMPORT_ROOTS) and not prog))
+    return out
+
+
+def compare_ops(got, want, cut):
+    if cut:
+        drop = ("os_exit", "uftrace_python.exit", "posix._exit")
+        w = [x for x in want if x not in drop]
+        g = [x for x in got if x not in drop]
+        while w and w[-1] is None:
+            w.pop()
+        while g and g[-1] is None:
+            g.pop()
+        return g == w
+    return until_module_end(got) == until_module_end(want)
+
+
+def first_diff(got, want):
+    g, w = until_module_end(got), until_module_end(want)
+    for i in range(max(len(g), len(w))):
+        a = g[i] if i < len(g) else "<end>"
+        b = w[i] if i < len(w) else "<end>"
+        if a != b:
+            lo = max(0, i - 6)
+            return {"at": i, "trace_has": fmt_ops(g[lo:i + 6]), "program_did": fmt_ops(w[lo:i + 6])}
+    return None
+
+
+def _sh(cmd, cwd, env, timeout=120):
+    try:
+        r = subprocess.run(cmd, cwd=cwd, env=env, stdout=subprocess.PIPE, stderr=subprocess.PIPE, text=True,
+                           timeout=timeout, errors="replace")
+        return r.returncode, r.stdout, r.stderr
+    except subprocess.TimeoutExpired:
+        return -999, "", "TIMEOUT"
+
+
+def project_env():
+    env = dict(os.environ)
+    env["PYTHONDONTWRITEBYTECODE"] = "1"
+    env["PYTHONHASHSEED"] = "0"
+    env.pop("PYTHONPATH", None)
+    return env
+
+
+def project_run_one(ctx, out, proj, ri):
+    """native run, ground-truth run, traced run + replay + info of one (project, start mode, options)"""
+    uft = os.path.join(ctx.src, "uftrace")
+    sm, lm, filt = proj["runs"][ri]
+    W = proj["W"]
+    argv0, cwd, pathdir = start_cmd(W, sm)
+    env = project_env()
+    if pathdir:
+        env["PATH"] = pathdir + ":" + env.get("PATH", "")
+    nrc, nout, nerr = _sh([argv0], cwd, env)
+    # ground truth: the same command line, untraced, under sys.setprofile
+    lenv = dict(env)
+    lenv["C19_LOG"] = os.path.join(out, "p%d-%d.log" % (proj["idx"], ri))
+    lenv["PYTHONPATH"] = os.path.join(C.VERIF, "harness")
+    lrc, lout, lerr = _sh(["python3", "-m", "c19_projlog", argv0], cwd, lenv)
+    tenv = dict(env)
+    tenv["PYTHONPATH"] = os.path.join(ctx.src, "python")
+    d = os.path.join(out, "p%d-%d.data" % (proj["idx"], ri))
+    cmd = [uft, "record", "--libmcount-path=" + os.path.join(ctx.src, "libmcount"), "--no-event", "--no-pager",
+           "-d", d] + LIBCALL_OPTS[lm] + filt + [argv0]
+    rrc, rout, rerr = _sh(["timeout", "100"] + cmd, cwd, tenv)
+    _, rp, _ = _sh(["timeout", "100", uft, "replay", "--no-pager", "-d", d, "-f", "none"], cwd, tenv)
+    _, info, _ = _sh(["timeout", "60", uft, "info", "--no-pager", "-d", d], cwd, tenv)
+    return {"native": (nrc, nout, nerr), "record": (rrc, rout, rerr), "replay": rp, "info": info,
+            "ref": (lrc, lout, lerr), "log": read_projlog(lenv["C19_LOG"]),
+            "cmd": cmd[:1] + ["record"] + cmd[5:], "cwd": cwd, "pathdir": pathdir, "argv0": argv0}
+
+
+def project_judge(proj, ri, res):
+    """C19's statement on one traced run -> None, or (replay object, shape of F-C19-SCRIPTDIR | None)"""
+    sm, lm, filt = proj["runs"][ri]
+    evs, cls, files = res["log"]
+    ents = []
+    for i in range(0, len(filt), 2):
+        ents.append(("regex", filt[i + 1], "in" if filt[i] == "-F" else "out"))
+    libs = {n for n, c in cls.items() if c == "L"}
+    want, cut, nopen = expected_ops(evs, libs, lm, ents or None)
+    want = strip_import_internals(want, cls)
+    got = strip_import_internals(replay_to_ops(res["replay"]), cls)
+    nrc, nout, nerr = res["native"]
+    rrc, rout, rerr = res["record"]
+    problems = []
+    if not evs or res["ref"][1] != nout:
+        problems.append("reference run of the program disagrees with the native run (check's own problem)")
+    same = compare_ops(got, want, cut)
+    if not same:
+        problems.append("trace differs from the calls the program made")
+    if rout != nout:
+        problems.append("stdout of the script changed under uftrace record")
+    st = info_exit_status(res["info"])
+    if st != nrc:
+        problems.append("exit status recorded by uftrace (%r) is not the script's (%r)" % (st, nrc))
+    if (rrc == 0) != (nrc == 0):
+        problems.append("uftrace record rc %d but the script's status is %d" % (rrc, nrc))
+    if not problems:
+        return None
+    # ---- is this the launcher as found?  (sys.path[0] and main_dir computed differently)
+    argv0, cwd, pathdir = start_cmd(proj["W"], sm)
+    sp0, md = launcher_prefix_dirs(argv0, cwd, pathdir)
+    real = os.path.join(proj["W"], "app")
+    shape = None
+    if not os.path.exists(os.path.join(sp0, "helper.py")):
+        if "ModuleNotFoundError" in rerr and rout != nout:
+            shape = "symlinked-script"          # the neighbours are looked up next to the link
+    elif sp0 != md:
+        libs_pre = set(libs)
+        for n, c in cls.items():
+            if c != "D":
+                continue
+            f = files.get(n, "")
+            if f.startswith(real + "/"):           # imported from (or named after) sys.path[0] in the traced run
+                f = sp0 + f[len(real):]
+            if not (f.startswith(md) and f[len(md):len(md) + 1] == "/"):
+                libs_pre.add(n)
+        want_pre, cut_pre, _ = expected_ops(evs, libs_pre, lm, ents or None)
+        cls_pre = {n: ("L" if n in libs_pre else c) for n, c in cls.items()}
+        want_pre = strip_import_internals(want_pre, cls_pre)
+        got_pre = strip_import_internals(replay_to_ops(res["replay"]), cls_pre)
+        if compare_ops(got_pre, want_pre, cut_pre) and rout == nout and st == nrc:
+            shape = "relative-path-through-symlinked-directory"
+    obj = {"kind": "property-violated-on-implementation", "what": "; ".join(problems), "start_mode": sm,
+           "libcall_mode": lm, "options": LIBCALL_OPTS[lm] + filt, "filter_options": filt,
+           "command": " ".join(res["cmd"]),
+           "cwd": res["cwd"], "PATH_prefix": res["pathdir"], "layout": "app/ = project; link -> app; deep/l2 -> ../link; "
+           "bin/tool -> ../app/main.py", "features": proj["features"], "exit_mode": proj["exit"],
+           "files": proj["files"], "first_difference": first_diff(got, want) if not same else None,
+           "stdout_native": nout[-600:], "stdout_traced": rout[-600:], "record_stderr": rerr[-800:],
+           "native_rc": nrc, "record_rc": rrc, "info_exit_status": st,
+           "theorem": "c19_refines_doc / c19_end_to_end_balanced / c19_name_is_current_code_object (end to end)"}
+    if shape:
+        obj.update({"finding": F_SCRIPTDIR, "shape": shape, "sys_path0_as_found": sp0, "main_dir_as_found": md,
+                    "witness_theorem": "c19_prefix_scriptdir_witness",
+                    "proposed_fix": "proposed_fixes/C19-SCRIPTDIR.diff"})
+    return obj, shape
+
+
+def run_projects(ctx):
+    """-> coverage dict; reports violations / the open finding"""
+    import sys
+    from concurrent.futures import ThreadPoolExecutor
+    sys.path.insert(0, os.path.join(C.VERIF, "harness"))
+    import c19_projgen as G
+    rng = ctx.rng
+    okb, log = ctx.make()
+    if not okb:
+        C.violation(ctx, "e2e-build", {"kind": "snapshot-build-failed", "log": log[-2000:]}, True)
+        return {"built": False}
+    root = os.path.join(os.path.realpath(ctx.scratch), "projects")
+    out = os.path.join(os.path.realpath(ctx.scratch), "projects-out")       # logs and data: not inside a project
+    os.makedirs(root, exist_ok=True)
+    os.makedirs(out, exist_ok=True)
+    quick = ctx.tier == "quick"
+    nproj = 12 if quick else 40
+    # features every run must contain somewhere (deterministic spread), the rest is random per project
+    must = [["rules-drop"], ["rules-drop", "rules-inside"], ["rules-drop", "lambdas"], ["classgen", "rules-drop"],
+            ["namedtuple"], ["dataclass"], ["rules-kept", "rules-inside"], ["pkg", "helper-class"],
+            ["rules-drop", "namedtuple"], ["lambdas", "classgen"], ["local-class", "closure"], ["generator", "exception"]]
+    projects = []
+    # corpus first: the witness project of F-C19-SCRIPTDIR (and whatever else was minimised into corpus/C19/projects)
+    cdir = os.path.join(C.VERIF, "corpus", "C19", "projects")
+    corpus = sorted(os.listdir(cdir)) if os.path.isdir(cdir) else []
+    for pi in range(len(corpus) + nproj):
+        if pi < len(corpus):
+            proj = json.load(open(os.path.join(cdir, corpus[pi])))
+            fixed_runs = [tuple(r) for r in proj.get("runs", [])]
+        else:
+            proj = G.gen_project(rng, pi, must[(pi - len(corpus)) % len(must)])
+            fixed_runs = None
+        W = os.path.join(root, "p%d" % pi)
+        os.makedirs(W)
+        project_materialize(W, proj)
+        proj["W"] = W
+        proj["idx"] = pi
+        proj["runs"] = []
+        if fixed_runs is not None:
+            proj["runs"] = [(sm, lm, list(filt)) for sm, lm, filt in fixed_runs]
+            projects.append(proj)
+            continue
+        modes = list(START_MODES) if quick else list(START_MODES) * 2
+        for si, sm in enumerate(modes):
+            lm = MODES[(pi + si + (si // len(START_MODES))) % 3]
+            if proj["heavy"] and lm == "NESTED":
+                lm = "SINGLE"
+            filt = rng.choice(G.FILTER_POOL)
+            proj["runs"].append((sm, lm, filt))
+        projects.append(proj)
+
+    with ThreadPoolExecutor(12) as ex:
+        jobs = [(p, ri) for p in projects for ri in range(len(p["runs"]))]
+        results = list(ex.map(lambda j: project_run_one(ctx, out, j[0], j[1]), jobs))
+
+    try:
+        lm_cases, lm_bad = launcher_model_check(ctx, projects[0]["W"])
+    except Exception as e:        # the driver is not available (broken proof obligation): e2e goes on
+        lm_cases, lm_bad = 0, str(e)[-200:]
+    runs = fails = finding_hits = warn_lines = 0
+    by_mode = {}
+    fail_modes = {}
+    reports = []
+    finding_cases = []
+    events_total = 0
+    kf = find_known(F_SCRIPTDIR)
+    for (proj, ri), res in zip(jobs, results):
+        sm, lm, filt = proj["runs"][ri]
+        runs += 1
+        by_mode[sm] = by_mode.get(sm, 0) + 1
+        events_total += len(res["log"][0])
+        warn_lines += res["record"][2].count("unpaired cygprof exit")
+        j = project_judge(proj, ri, res)
+        if j is None:
+            continue
+        obj, shape = j
+        if shape:
+            finding_hits += 1
+            finding_cases.append(("e2e-proj%d-%s" % (proj["idx"], sm), obj, shape))
+            continue
+        fails += 1
+        fail_modes[sm] = fail_modes.get(sm, 0) + 1
+        reports.append(("e2e-proj%d-%s" % (proj["idx"], sm), obj))
+    # smallest programs first; at most 3 replays
+    reports.sort(key=lambda r: (len(r[1]["files"]["main.py"]), r[0]))
+    for name, obj in reports[:3]:
+        C.violation(ctx, name, obj)
+    if finding_cases:
+        shapes_seen = sorted({s for _, _, s in finding_cases})
+        what = ("%s open: python/uftrace.py puts dirname(<cwd>/<script>) into sys.path while trace-python.c takes "
+                "realpath() of a relative script name for the program's directory (and neither resolves a script that "
+                "is a symbolic link): %d of %d project runs (%s)" % (F_SCRIPTDIR, finding_hits, runs, ", ".join(shapes_seen)))
+        if kf is not None:
+            C.known(ctx, kf, what)
+        else:
+            done = set()
+            for name, obj, shape in sorted(finding_cases, key=lambda r: (len(r[1]["files"]["main.py"]), r[0])):
+                if shape not in done:
+                    done.add(shape)
+                    C.violation(ctx, name, obj)
+    return {"built": True, "projects": nproj, "corpus_projects": len(corpus), "record_runs": runs, "by_start_mode": by_mode,
+            "launcher_model_cases": lm_cases, "launcher_model_disagreements": lm_bad,
+            "failures": fails, "failures_by_start_mode": fail_modes,
+            "runs_matching_the_launcher_as_found_F_SCRIPTDIR": finding_hits,
+            "ground_truth_events": events_total, "unpaired_exit_warnings_on_stderr": warn_lines,
+            "features": sorted({f for p in projects for f in p["features"]}),
+            "exit_modes": sorted({p["exit"] for p in projects})}
+
+
+def replay_project(ctx, obj):
+    """re-run one project case of a replay file against the current tree"""
+    okb, log = ctx.make()
+    if not okb:
+        print("snapshot build failed:\n" + log[-1500:])
+        return 2
+    root = os.path.join(os.path.realpath(ctx.scratch), "projects")
+    out = os.path.join(os.path.realpath(ctx.scratch), "projects-out")
+    os.makedirs(out, exist_ok=True)
+    W = os.path.join(root, "p0")
+    os.makedirs(W)
+    proj = {"files": obj["files"], "features": obj.get("features", []), "exit": obj.get("exit_mode"), "W": W, "idx": 0,
+            "runs": [(obj["start_mode"], obj["libcall_mode"], obj.get("filter_options", []))]}
+    project_materialize(W, proj)
+    res = project_run_one(ctx, out, proj, 0)
+    j = project_judge(proj, 0, res)
+    print("command : %s   (cwd %s, PATH prefix %s)" % (" ".join(res["cmd"]), res["cwd"], res["pathdir"]))
+    if j is None:
+        print("monitor : ok (trace = the calls the program made; stdout and exit status unchanged)")
+        return 0
+    o, shape = j
+    print("monitor : " + o["what"])
+    print("first difference: %s" % o["first_difference"])
+    if shape:
+        print("matches the launcher as found (%s, shape %s)" % (F_SCRIPTDIR, shape))
+    return 1
+
+
 def replay(ctx, path):
     obj = json.load(open(path))
     print(json.dumps(obj, indent=1))
     line = obj.get("model_input")
+    if "files" in obj and "start_mode" in obj:
+        ctx.snapshot()
+        return replay_project(ctx, obj)
     if obj.get("harness_input", "").startswith("hook ") or (line or "").startswith("hook "):
         return replay_hook(ctx, obj)
     if not line or line.startswith("spec "):
@@ -1570,9 +2128,9 @@ def replay(ctx, path):
     if len(impls) != 1:
         print("harness failed: " + r.stderr[-500:])
         return 2
-    m1 = C.run_model("C19", [with_fixed(line, "1")])[0]
-    m0 = C.run_model("C19", [with_fixed(line, "0")])[0]
-    bad = monitor(line, impls[0])
+    m1 = C.run_model("C19", [with_fixed(models[0], "1")])[0]
+    m0 = C.run_model("C19", [with_fixed(models[0], "0")])[0]
+    bad = code_monitor(line, impls[0]) if line.startswith("code ") else monitor(line, impls[0])
     print("case            : " + line)
     print("implementation  : " + C.norm(impls[0]))
     print("model (fixed)   : " + C.norm(m1))
